@@ -25,4 +25,4 @@ require (
 	golang.org/x/sync v0.13.0 // indirect
 )
 
-replace github.com/charmbracelet/bubbletea => /tmp/w/pre
+replace github.com/charmbracelet/bubbletea => /repo
